@@ -8,7 +8,8 @@ Mirrors `homescript/compiler` (`compileProgram`, `compileFn`, `compileBlock`, `c
 commits. The output is rendered in the textual form of the Go `Instruction.String()` methods
 so that the instruction stream of the real compiler can be compared verbatim.
 -/
-namespace Hms.Core
+namespace Hms.Core.Comp
+open Hms.Core
 
 /-- Constants that `Copy_Push` / `Cloning_Push` carry. -/
 inductive PVal where
@@ -416,9 +417,6 @@ partial def compileStmt (st : Stmt) : C Unit :=
     match e with
     | some e => compileExpr e
     | none => pure ()
-    let s ← get
-    let cleanup := (s.fns.lookup (s.currModule, s.currFn)).map (fun _ => s.currFn) |>.getD ""
-    let _ := cleanup
     emit (.jump (← cleanupLabel)) sp
   | .brk sp => do
     match (← get).loops with
@@ -562,7 +560,6 @@ def relocate (code : List (SInstr × Span)) : Option (List (Instr Nat String × 
     | _ :: rest => labels (idx + 1) rest
   let tbl := labels 0 code
   let look (l : String) : Option Nat := ((tbl.reverse).lookup l)   -- the Go map keeps the last entry
-  code.filterMap (fun (i, _) => match i with | .label _ => none | _ => some ()) |>.length |> fun _ =>
   (code.filter fun (i, _) => match i with | .label _ => false | _ => true).mapM fun (i, sp) =>
     match i with
     | .jump l => do pure (.jump (← look l), sp)
@@ -645,4 +642,61 @@ def compile (prog : Program) (entry : String := "main") : Except String Compiled
     | none => .error "unresolved label"
     | some fs => .ok { fns := fs, entryFns := (s.fns.filter (·.1.1 == entry)).map fun (k, f) => (k.2, f.name) }
 
-end Hms.Core
+/-! ## Rendering in the format of the Go `Instruction.String()` methods -/
+
+partial def PVal.render : PVal → String
+  | .null => "null"
+  | .int v => toString v
+  | .float b => (fmtFloat (floatOfBits b)).getD "<float>"
+  | .bool b => if b then "true" else "false"
+  | .str s => "\"" ++ (s.replace "\n    " "").replace "\n" "" ++ "\""
+  | .noneOpt => "none"
+  | .emptyList => "[]"
+  | .emptyAnyObj => "{}"
+  | .obj fs =>
+    let sorted := (fs.toArray.qsort fun a b => a.1 < b.1).toList
+    "{" ++ ",".intercalate (sorted.map fun (k, v) => s!"{k}: {(match v with | .str s => s | v => v.render)}") ++ "}"
+  | .range0 => "0..0"
+  | .vmFn n => s!"<vm-runtime-function ({n})>"
+
+def tyRender : Ty → String
+  | _ => "?"
+
+def RInstr.render : RInstr → String
+  | .nop => "Nop"
+  | .copyPush v => s!"CopyPush({v.render})"
+  | .cloningPush v => s!"CloningPush({v.render})"
+  | .clone => "Clone" | .drop => "Drop" | .dup => "Duplicate"
+  | .spawn f => s!"Spawn({f})"
+  | .callVal => "Call_Val"
+  | .callImm f => s!"Call_Imm({f})"
+  | .ret => "Return"
+  | .loadSingleton a b => s!"LoadSingleton({a}, {b})"
+  | .hostCall n => s!"HostCall({n})"
+  | .jump l => s!"Jump({l})"
+  | .jumpIfFalse l => s!"JumpIfFalse({l})"
+  | .getVar v => s!"GetVarImm({v})"
+  | .getGlob n => s!"GetGlobImm({n})"
+  | .setVar v => s!"SetVarImm({v})"
+  | .setGlob n => s!"SetGlobImm({n})"
+  | .assign => "Assign"
+  | .cast _ allow => s!"Cast(perform_cast={allow})"
+  | .neg => "Neg" | .some => "Some" | .not => "Not"
+  | .add => "Add" | .sub => "Sub" | .mul => "Mul" | .pow => "Pow" | .div => "Div" | .rem => "Rem"
+  | .eq => "Eq" | .eqPopOnce => "Eq_PopOnce" | .lt => "Lt" | .gt => "Gt" | .le => "Le" | .ge => "Ge"
+  | .shl => "Shl" | .shr => "Shr" | .bitOr => "BitOr" | .bitAnd => "BitAnd" | .bitXor => "BitXor"
+  | .index => "Index"
+  | .setTry f l => s!"SetTryLabel({f}:{l})"
+  | .popTry => "PopTryLabel"
+  | .throw => "Throw"
+  | .member n => s!"Member({n})"
+  | .memberAnyobj n => s!"MemberAnyobj({n})"
+  | .unwrap => "Unwrap"
+  | .importI a b => s!"Import({a}, {b})"
+  | .label l => s!"Label({l})"
+  | .intoRange b => s!"Into_Range({b})"
+  | .addMp n => s!"AddMempointer({n})"
+  | .iterAdvance => "IterAdvance"
+  | .intoIter => "IntoIter"
+
+end Hms.Core.Comp
